@@ -223,6 +223,9 @@ pub struct Sched {
 	pub writer_pref: bool,
 	/// when set, choices are forced from this list (exhaustive enumeration)
 	pub forced: Option<Vec<u8>>,
+	/// per thread: its pending blocking request was found not grantable at some
+	/// moment (on arrival, or later because another thread got there first)
+	pub wait_noted: Vec<bool>,
 }
 
 pub struct Inner {
@@ -488,6 +491,35 @@ impl Exec {
 }
 
 impl Inner {
+	/// The pending blocking request `op` on `lid` of `tid` cannot be granted
+	/// right now: the thread waits.  Recorded once per request.
+	pub fn note_wait(&mut self, tid: Tid, lid: Lid, op: Op) {
+		if let Some(s) = self.sched.as_mut() {
+			if (tid as usize) < s.wait_noted.len() {
+				s.wait_noted[tid as usize] = true;
+			}
+		}
+		let frame = self.cur_frame.get(tid as usize).copied().unwrap_or(0);
+		let l = &self.locks[lid as usize];
+		let self_held = l.excl == Some(tid) || (!op.is_shared() && l.shared.contains(&tid));
+		if self_held {
+			self.notices.push(Notice::SelfWait { tid, lid, frame });
+		}
+		let fkind = if frame != 0 { Some(self.frames[frame as usize - 1].kind) } else { None };
+		match fkind {
+			Some(CallKind::AcquireTry) => self.notices.push(Notice::BlockingInTry { tid, lid, frame }),
+			Some(CallKind::NonAcquiring) | Some(CallKind::Release) => self.notices.push(Notice::WaitInNonAcquiring { tid, lid, frame }),
+			_ => {}
+		}
+		if frame != 0 && self.retry_frames.contains(&frame) {
+			let grp = self.group_of[lid as usize];
+			let held: Vec<Lid> = self.held_by(tid).into_iter().map(|(l, _)| l).filter(|l| grp == u32::MAX || self.group_of[*l as usize] != grp).collect();
+			if !held.is_empty() {
+				self.notices.push(Notice::HoldAndWait { tid, lid, frame, held });
+			}
+		}
+	}
+
 	pub fn held_by(&self, tid: Tid) -> Vec<(Lid, bool)> {
 		let mut v = Vec::new();
 		for (i, l) in self.locks.iter().enumerate() {
@@ -843,36 +875,17 @@ impl Exec {
 		p: Pending,
 		waited: &mut bool,
 	) -> Result<std::sync::MutexGuard<'a, Inner>, ()> {
-		// C09 oracle and "blocking while not grantable" bookkeeping
+		// C09 oracle and "blocking while not grantable" bookkeeping (repeated by
+		// pick_next while the request stays pending: another thread may take
+		// the lock between this thread's arrival and its turn)
+		if let Some(s) = g.sched.as_mut() {
+			if (tid as usize) < s.wait_noted.len() {
+				s.wait_noted[tid as usize] = false;
+			}
+		}
 		if let Pending::Raw { lid, op } = &p {
 			if op.is_blocking() && !g.grantable(tid, *lid, op.is_shared()) {
-				*waited = true;
-				let frame = g.cur_frame.get(tid as usize).copied().unwrap_or(0);
-				let l = &g.locks[*lid as usize];
-				let self_held = l.excl == Some(tid) || (!op.is_shared() && l.shared.contains(&tid));
-				if self_held {
-					g.notices.push(Notice::SelfWait { tid, lid: *lid, frame });
-				}
-				let fkind = if frame != 0 { Some(g.frames[frame as usize - 1].kind) } else { None };
-				match fkind {
-					Some(CallKind::AcquireTry) => g.notices.push(Notice::BlockingInTry { tid, lid: *lid, frame }),
-					Some(CallKind::NonAcquiring) | Some(CallKind::Release) => {
-						g.notices.push(Notice::WaitInNonAcquiring { tid, lid: *lid, frame })
-					}
-					_ => {}
-				}
-				if frame != 0 && g.retry_frames.contains(&frame) {
-					let grp = g.group_of[*lid as usize];
-					let held: Vec<Lid> = g
-						.held_by(tid)
-						.into_iter()
-						.map(|(l, _)| l)
-						.filter(|l| grp == u32::MAX || g.group_of[*l as usize] != grp)
-						.collect();
-					if !held.is_empty() {
-						g.notices.push(Notice::HoldAndWait { tid, lid: *lid, frame, held });
-					}
-				}
+				g.note_wait(tid, *lid, *op);
 			}
 		}
 		{
@@ -896,6 +909,9 @@ impl Exec {
 		}
 		let s = g.sched.as_mut().unwrap();
 		s.status[tid as usize] = ThStatus::Running;
+		if s.wait_noted.get(tid as usize).copied().unwrap_or(false) {
+			*waited = true;
+		}
 		Ok(g)
 	}
 
@@ -924,7 +940,11 @@ impl Exec {
 					Pending::Start | Pending::Yield => true,
 					Pending::Raw { lid, op } => {
 						if op.is_blocking() {
-							g.grantable(t as Tid, lid, op.is_shared())
+							let ok = g.grantable(t as Tid, lid, op.is_shared());
+							if !ok && !g.sched.as_ref().unwrap().wait_noted.get(t).copied().unwrap_or(true) {
+								g.note_wait(t as Tid, lid, op);
+							}
+							ok
 						} else {
 							true
 						}
